@@ -5,6 +5,7 @@ import (
 	"go/ast"
 	"go/token"
 	"go/types"
+	"strings"
 
 	"verif/engine/core"
 )
@@ -234,4 +235,107 @@ func conversionLoops(c *core.Ctx) {
 		})
 	}
 	c.Check(nLoops >= 3, ruleB, "conversion loops analysed", token.NoPos, fmt.Sprintf("found %d", nLoops))
+}
+
+// conversionsArePure:
+//
+//	(a) exporting a value to its API form does not write the value: nothing reachable from a ToProto function (inside
+//	    the converted packages) assigns through the receiver or a parameter.  A memoised API form kept inside a shared
+//	    attribute object survives Copy() and direct field assignments (next-hop-self), so a later export reports the
+//	    OLD next hop;
+//	(b) importing builds the value from the message's fields and returns it as built: a from-function for a struct
+//	    VALUE does not pass its result through another method of that type (a normalisation such as un-mapping
+//	    ::ffff:a.b.c.d changes the address family of what the API carried).
+func conversionsArePure(c *core.Ctx) {
+	p := c.P
+	const ruleA, ruleB = "export-does-not-write-the-value", "import-returns-the-value-as-built"
+	inConv := func(f *core.Fn) bool {
+		for _, s := range []string{"bio-rd/route", "bio-rd/net", "protocols/bgp/types"} {
+			if strings.HasSuffix(f.Pkg.PkgPath, s) {
+				return true
+			}
+		}
+		return false
+	}
+	var tos []*core.Fn
+	for _, pr := range c34Pairs {
+		if f := p.Func(pr.to); f != nil {
+			tos = append(tos, f)
+		}
+	}
+	nA := 0
+	for _, f := range p.ReachableFns(tos...) {
+		if f.Decl.Body == nil || !inConv(f) || isTestFn(p, f) {
+			continue
+		}
+		nA++
+		c.Analysed(f)
+		outer := map[types.Object]bool{}
+		if r := recvObj(f); r != nil {
+			outer[r] = true
+		}
+		sig := f.Obj.Type().(*types.Signature)
+		for i := 0; i < sig.Params().Len(); i++ {
+			outer[sig.Params().At(i)] = true
+		}
+		bad := ""
+		var at ast.Node = f.Decl
+		ast.Inspect(f.Decl.Body, func(nd ast.Node) bool {
+			as, ok := nd.(*ast.AssignStmt)
+			if !ok {
+				return true
+			}
+			for _, l := range as.Lhs {
+				if _, plain := core.Unparen(l).(*ast.Ident); plain {
+					continue
+				}
+				if b := core.BaseIdent(l); b != nil && outer[core.ObjOf(f.Pkg, b)] {
+					// value receivers/params are copies: only pointer-typed ones reach the caller's object
+					if _, isPtr := core.ObjOf(f.Pkg, b).Type().Underlying().(*types.Pointer); isPtr {
+						bad, at = core.ExprString(l), as
+					}
+				}
+			}
+			return true
+		})
+		c.Check(bad == "", ruleA, f.Name()+" leaves the value it exports untouched", at.Pos(),
+			"while a value is converted to its API form `"+bad+"` is assigned: state kept inside the (shared, copied) object — a cached API form — is not invalidated by direct field assignments elsewhere, so a later export of a modified copy reports the old contents")
+	}
+	c.Check(nA >= 6, ruleA, "export functions examined", 0, fmt.Sprintf("examined %d functions reachable from the ToProto roots, floor 6", nA))
+	nB := 0
+	for _, pr := range c34Pairs {
+		f := p.Func(pr.from)
+		if f == nil || f.Decl.Body == nil {
+			continue
+		}
+		sig := f.Obj.Type().(*types.Signature)
+		if sig.Results().Len() != 1 {
+			continue
+		}
+		rt, ok := sig.Results().At(0).Type().(*types.Named)
+		if !ok {
+			continue
+		}
+		if _, isStruct := rt.Underlying().(*types.Struct); !isStruct {
+			continue
+		}
+		nB++
+		ast.Inspect(f.Decl.Body, func(nd ast.Node) bool {
+			r, ok := nd.(*ast.ReturnStmt)
+			if !ok || len(r.Results) != 1 {
+				return true
+			}
+			call, isCall := core.Unparen(r.Results[0]).(*ast.CallExpr)
+			okRet := true
+			if isCall {
+				if cal := core.Callee(f.Pkg, call); cal != nil && core.RecvName(cal) == rt.Obj().Name() {
+					okRet = false
+				}
+			}
+			c.Check(okRet, ruleB, fmt.Sprintf("%s return #%d", f.Name(), retIndex(f, r)), r.Pos(),
+				"the imported value is passed through another method of its type before it is returned: what comes back differs from what the API message carried (e.g. an IPv4-mapped IPv6 next hop turns into an IPv4 address), so export followed by import is not the identity")
+			return true
+		})
+	}
+	c.Check(nB >= 1, ruleB, "struct-valued import functions examined", 0, "none found (net.IPFromProtoIP was confirmed by hand)")
 }
